@@ -19,14 +19,14 @@ RULES = {
           "decorated with lock_tty; exemptions: fcntl.ioctl(TIOCGWINSZ), os.get_terminal_size (size probes), comparisons",
     "L3": "the global `_tty_lock` is bound only at module level (threading.RLock()), in _process_start_wrapper - inside "
           "`with _tty_lock:` and only to multiprocessing.RLock() - and in _process_run_wrapper; same shape for "
-          "`_cell_size_lock`; both constructors are re-entrant locks",
+          "`_cell_size_lock`; both constructors are re-entrant locks; the terminal locks are taken and released by `with` only (no explicit acquire / release, no os.register_at_fork hooks)",
     "L4": "on every normal path through _process_start_wrapper `self._tty_lock` and `self._cell_size_cache` are assigned "
           "before the wrapped start is called; _process_run_wrapper installs them before the wrapped run; both are patched "
           "into Process at import under `_tty_fd != -1`",
     "L6": "a multi-step exchange is one critical section: in every function that takes `with _tty_lock, _tty_lock` explicitly, every call "
           "of a lock_tty-synchronised terminal function (query_terminal/read_tty/write_tty) is inside that with block; and the decision to swap a "
           "lock in _process_start_wrapper (the isinstance test) is evaluated while holding the lock it swaps",
-    "L5": "every terminal-I/O method that UrwidImageScreen overrides (draw_screen, flush, get_available_raw_input, write, ...) is decorated with lock_tty",
+    "L5": "every terminal-I/O method that UrwidImageScreen overrides (draw_screen, flush, get_available_raw_input, write, ...) is decorated with lock_tty; no_redecorate sets its mark on the object the decorator returned, not on the one it was given",
 }
 
 U = "utils.py"
@@ -305,5 +305,7 @@ MUTANTS = [
     M("new-writer", "__init__.py", "enable_queries", "        utils._queries_enabled = True\n", "        utils._queries_enabled = True\n        utils._tty_lock = utils.RLock()\n", {"L3"}),
     M("run-wrapper-no-install", U, "_process_run_wrapper", "        _tty_lock = self._tty_lock\n", "        pass\n", {"L4", "L3"}),
     M("drain-outside-lock", U, "get_terminal_name_version", "        if _queries_enabled:\n            read_tty()  # The rest of the response to DA1\n", "    if _queries_enabled:\n        read_tty()  # The rest of the response to DA1\n", {"L6"}),
+    M("explicit-release", U, "write_tty", "    os.write(_tty_fd, data)\n", "    os.write(_tty_fd, data)\n    _tty_lock.release()\n", {"L3"}),
+    M("mark-the-input", U, "no_redecorate", "            obj = decor(*args, **kwargs)\n            setattr(obj, f\"_{decor.__name__}_wrapped_\", ...)\n", "            setattr(obj, f\"_{decor.__name__}_wrapped_\", ...)\n            obj = decor(*args, **kwargs)\n", {"L5"}),
     M("twin-comment", U, "lock_tty", "            # logging.debug(f\"{func.__name__} acquired TTY lock\", stacklevel=3)\n", "", twin=True),
 ]
